@@ -37,6 +37,8 @@ GLOBALS = {
     'char_class_table': 'ada::url_pattern_helpers::char_class_table',
     'is_forbidden_domain_code_point_table__idna': 'ada::idna::is_forbidden_domain_code_point_table',
     'max_domain_input_bytes': 'ada::idna::max_domain_input_bytes',
+    'CHAR_SCHEME': 'ada::url_pattern_helpers::CHAR_SCHEME', 'CHAR_UPPER': 'ada::url_pattern_helpers::CHAR_UPPER',
+    'CHAR_SIMPLE_HOSTNAME': 'ada::url_pattern_helpers::CHAR_SIMPLE_HOSTNAME', 'CHAR_SIMPLE_PATHNAME': 'ada::url_pattern_helpers::CHAR_SIMPLE_PATHNAME',
     'base': 'ada::idna::base', 'tmin': 'ada::idna::tmin', 'tmax': 'ada::idna::tmax', 'skew': 'ada::idna::skew', 'damp': 'ada::idna::damp',
     'initial_bias': 'ada::idna::initial_bias', 'initial_n': 'ada::idna::initial_n',
 }
